@@ -32,7 +32,7 @@ Proof. unfold cols15. rewrite map_snd_cols. reflexivity. Qed.
 
 Lemma wf_nic_inv i :
   wf_nic i = true ->
-  uends_ok (dec (n_name i)) = true /\ contains 10 (dec (n_name i)) = false
+  sends_ok (dec (n_name i)) = true /\ contains 10 (dec (n_name i)) = false
   /\ contains 13 (dec (n_name i)) = false
   /\ is_dec (rx_bytes i) = true /\ forallb is_dec (map snd (cols15 i)) = true
   /\ forallb is_dec (nic_counters i) = true.
@@ -91,7 +91,7 @@ Proof.
 Qed.
 
 Lemma net_line_printed sp i :
-  wf_nic i = true -> net_line (tbody sp i ++ [10]) = XV (Val (dec (n_name i), tup_nic (spec_nic i))).
+  wf_nic i = true -> net_line false (tbody sp i ++ [10]) = XV (Val (dec (n_name i), tup_nic (spec_nic i))).
 Proof.
   intros Hwf. destruct (wf_nic_inv i Hwf) as (Hn & _ & _ & _ & _ & Hall).
   unfold tbody. rewrite <- app_assoc. cbn [app].
@@ -105,7 +105,7 @@ Proof.
     cbn [length]. rewrite Nat.add_succ_r. reflexivity. }
   rewrite L. cbv zeta.
   rewrite firstn_app_len, skipn_app_len.
-  unfold pre. rewrite ustrip_pad by exact Hn.
+  unfold pre. unfold sstrip. rewrite (gstrip_pad is_sp 32 _ _ eq_refl Hn).
   rewrite usplit_strip, (split_rest sp i Hwf).
   rewrite (mapM_py_int_str_dec _ Hall). cbn [obind]. reflexivity.
 Qed.
@@ -141,7 +141,7 @@ Definition nic_kv (i : knic) : text * list Z := (dec (n_name i), tup_nic (spec_n
 
 Lemma net_fold_lines sp l : forall acc,
   forallb wf_nic l = true ->
-  net_fold acc (map (fun i => tbody sp i ++ [10]) l)
+  net_fold false acc (map (fun i => tbody sp i ++ [10]) l)
   = XV (Val (fold_left (fun d kv => dset (fst kv) (snd kv) d) (map nic_kv l) acc)).
 Proof.
   induction l as [|i l IH]; intros acc H; [reflexivity|].
@@ -150,7 +150,7 @@ Proof.
 Qed.
 
 Lemma net_raw_printed sp l :
-  wf_nics l = true -> net_raw (k_netdev sp l) = XV (Val (map nic_kv l)).
+  wf_nics l = true -> net_raw false (k_netdev sp l) = XV (Val (map nic_kv l)).
 Proof.
   unfold wf_nics. intros H. apply andb_true_iff in H as [Hwf Hnd].
   unfold net_raw. rewrite (lines_netdev sp l Hwf). cbn [skipn].
@@ -172,7 +172,7 @@ Proof.
 Qed.
 
 Theorem net_exact sp l pernic :
-  wf_nics l = true -> net_io_counters pernic (k_netdev sp l) = XV (Val (spec_net pernic l)).
+  wf_nics l = true -> net_io_counters false pernic (k_netdev sp l) = XV (Val (spec_net pernic l)).
 Proof.
   intros H. unfold net_io_counters. rewrite (net_raw_printed sp l H). cbn [xbind]. f_equal.
   unfold nic_kv, spec_net. destruct pernic.
@@ -191,30 +191,47 @@ Example net_example :
   let i2 := Build_knic (bs "lo") (bs "100") (bs "200") (bs "0") (bs "0") (bs "0") (bs "0") (bs "0") (bs "0")
                        (bs "1") (bs "2") (bs "0") (bs "7") (bs "0") (bs "0") (bs "0") (bs "0") in
   wf_nics [i1; i2] = true /\
-  net_io_counters false (k_netdev true [i1; i2])
+  net_io_counters false false (k_netdev true [i1; i2])
   = XV (Val (RTuple (nt_nic (Build_nicstat 18446744073709551616 101 12 202 3 11 4 19)))).
 Proof. vm_compute. auto. Qed.
 
-(* a non-ASCII name ("wl\xc3\xa9\xe2\x82\xac0" = wlé€0), an undecodable byte (0xff), a blank inside *)
+(* a non-ASCII name ("wl\xc3\xa9\xe2\x82\xac0" = wle'EUR0), an undecodable byte (0xff), a blank inside,
+   names beginning / ending with a str blank the kernel accepts (0x1f, U+0085, U+2003) *)
 Example net_example_bytes :
-  let c := [bs "1"; bs "2"; bs "3"; bs "4"; bs "5"; bs "6"; bs "7"; bs "8";
-            bs "9"; bs "10"; bs "11"; bs "12"; bs "13"; bs "14"; bs "15"; bs "16"] in
   let mk n := Build_knic n (bs "1") (bs "2") (bs "3") (bs "4") (bs "5") (bs "6") (bs "7") (bs "8")
                          (bs "9") (bs "10") (bs "11") (bs "12") (bs "13") (bs "14") (bs "15") (bs "16") in
-  let l := [mk [119; 108; 195; 169; 226; 130; 172; 48]; mk [101; 255; 49]; mk [97; 31; 98]] in
-  wf_nics l = true /\
+  let l := [mk [119; 108; 195; 169; 226; 130; 172; 48]; mk [101; 255; 49]; mk [97; 31; 98];
+            mk (bs "eth0" ++ [31]); mk (bs "eth0"); mk [194; 133; 101]; mk [119; 226; 128; 131]] in
+  wf_nics l = true /\ forallb (fun i => dev_valid_name (n_name i)) l = true /\
   map n_name l <> map (fun i => dec (n_name i)) l /\
-  net_io_counters true (k_netdev true l) = XV (Val (spec_net true l)).
+  net_io_counters false true (k_netdev true l) = XV (Val (spec_net true l)).
 Proof. vm_compute. repeat split; congruence. Qed.
 
-(* finding: the kernel accepts the interface name "eth0\x1f" (dev_valid_name: 0x1f is no kernel
-   blank), str.strip() removes the trailing U+001F: the interface is reported as "eth0" *)
+(* every name the kernel accepts is covered *)
+Lemma dev_valid_net_ok n : dev_valid_name n = true -> net_name_ok n = true.
+Proof.
+  unfold dev_valid_name. intros H.
+  apply andb_true_iff in H as [H Hall]. apply andb_true_iff in H as [H _].
+  apply andb_true_iff in H as [H _]. apply andb_true_iff in H as [Hne _].
+  assert (Hn : n <> []) by (destruct n; [discriminate|discriminate]).
+  assert (C : forall c, c = 10 \/ c = 13 \/ c = 32 -> contains c n = false).
+  { intros c Hc. apply contains_false_forallb. refine (forallb_imp _ _ _ _ Hall).
+    intros b Hb. unfold kernel_isspace in Hb. destruct Hc as [Hc|[Hc|Hc]]; subst c; lia. }
+  unfold net_name_ok. rewrite !dec_contains by lia. rewrite !C by auto. cbn [negb andb].
+  rewrite !andb_true_r. unfold sends_ok. apply gtok_ends. apply gtok_ok_spec. split.
+  - now apply dec_nonempty.
+  - apply gno_ws_sp. rewrite dec_contains by lia. apply C. auto.
+Qed.
+
+(* the code before fix e02f4b0 (name = line[:colon].strip()): the kernel accepts the interface name
+   "eth0\x1f" (dev_valid_name: 0x1f is no kernel blank), str.strip() removed the trailing U+001F and
+   the interface was reported as "eth0" *)
 Definition nic_us : knic :=
   Build_knic (bs "eth0" ++ [31]) (bs "1") (bs "2") (bs "3") (bs "4") (bs "5") (bs "6") (bs "7") (bs "8")
              (bs "9") (bs "10") (bs "11") (bs "12") (bs "13") (bs "14") (bs "15") (bs "16").
-Theorem net_name_strip_refuted :
+Theorem net_legacy_strip_refuted :
   exists i,
-    dev_valid_name (n_name i) = true /\ forallb is_dec (nic_counters i) = true /\
+    dev_valid_name (n_name i) = true /\ wf_nics [i] = true /\
     spec_net true [i] = RDict [(bs "eth0" ++ [31], nt_nic (spec_nic i))] /\
-    net_io_counters true (k_netdev true [i]) = XV (Val (RDict [(bs "eth0", nt_nic (spec_nic i))])).
+    net_io_counters true true (k_netdev true [i]) = XV (Val (RDict [(bs "eth0", nt_nic (spec_nic i))])).
 Proof. exists nic_us. repeat split; vm_compute; reflexivity. Qed.
